@@ -1,5 +1,11 @@
 """C35 — the simulated execution environment is faithful to its contingent problem.
 
+P (real source): SimulatedExecutionEnvironment._get_stateless_deterministic_problem_clone with the Problem-building operations by contract
+(each records what it was given): for problems of any size, every fluent is added with the problem's per-fluent default (which already holds a
+per-type default), else False for a Boolean fluent, else none; every explicit initial value of a non-hidden fluent -- and none of a hidden one --
+is set; every non-sensing action is added as a clone, every sensing action as a plain action of the same name with all its preconditions and
+clones of all its effects; every goal and metric is copied.  (Loop invariants over the seven loops, nested ones included.)
+
 Bounded run-time contract (public API only: a `sense_all` sensing action added to every generated problem observes every
 ground fluent, so the hidden state is read through `apply`):
   H  the hidden initial state satisfies every oneof (exactly one literal true) and or (at least one) constraint,
@@ -25,7 +31,6 @@ from unified_planning.model.fluent import get_all_fluent_exp
 from unified_planning.plans import ActionInstance
 from unified_planning.exceptions import UPUsageError
 
-UNITS = []
 
 
 def build(rng):
@@ -264,7 +269,286 @@ def replay_file(data):
     return {"reproduced": bool(failures), "concrete": c, "observed": [f["what"] for f in failures][:4]}
 
 
-LEVEL = "exploration"
+# ======================================================================================================= proved layer
+import z3
+from pyvc.values import (Ref, Seq, Map, Set, Opt, Str, SBool, SRef, SUnion, SSeq, SMap, SSet, Rec, CList, Loc, fresh_name, zbool, zint,
+                         Unsupported as _Unsupported)
+from pyvc.values import Bool as PBool
+from pyvc.verify import Unit
+from pyvc.engine import LoopSpec
+from pyvc import builtins as B
+import unified_planning.model.contingent.execution_environment as _ee
+import unified_planning.model.contingent.sensing_action as _sa
+
+Env35, Type35, Obj35, Metric35, FN35, Eff35, Param35 = (Ref(n) for n in ("Environment35", "Type35", "Object35", "Metric35", "FNode35", "Effect35", "Parameter35"))
+Type35.observers["is_bool_type"] = ((), PBool)
+Fluent35 = Ref("Fluent35", fields={"type": Type35})
+Eff35.methods["clone"] = lambda eng, st, e, args, kw: iter([(st, Eff35.wrap(z3.Function("Effect35.clone", Eff35.z3sort(), Eff35.z3sort())(e.z)))])
+_ECLONE = z3.Function("Effect35.clone", Eff35.z3sort(), Eff35.z3sort())
+Action35 = Ref("Action35", fields={"name": Str, "parameters": Seq(Param35), "preconditions": Seq(FN35), "effects": Seq(Eff35)})
+_ACLONE = z3.Function("Action35.clone", Action35.z3sort(), Action35.z3sort())
+Action35.methods["clone"] = lambda eng, st, a, args, kw: iter([(st, Action35.wrap(_ACLONE(a.z)))])
+is_sensing35 = B._uf("Action35.is_sensing", Action35.z3sort(), z3.BoolSort())
+Action35.pycls = object
+Action35.isinstance_hook = lambda e, st, v, clss: SBool(is_sensing35(v.z))
+CProblem35 = Ref("ContingentProblem35", fields={
+    "name": Str, "environment": Env35, "fluents": Seq(Fluent35), "fluents_defaults": Map(Fluent35, FN35), "all_objects": Seq(Obj35),
+    "explicit_initial_values": Map(FN35, FN35, ordered=True), "hidden_fluents": Set(FN35), "actions": Seq(Action35), "goals": Seq(FN35),
+    "quality_metrics": Seq(Metric35)})
+Param35.fields.update({"name": Str, "type": Type35})
+QNC = "unified_planning.model.contingent.execution_environment.SimulatedExecutionEnvironment._get_stateless_deterministic_problem_clone"
+_F, _A, _K, _E = Fluent35.z3sort(), Action35.z3sort(), FN35.z3sort(), Eff35.z3sort()
+
+
+class DetProblem:
+    """marker class of the record standing for the plain Problem under construction (its methods are placeholders: every call goes
+    through the contract registered for it)"""
+
+    def add_fluent(self, *a, **k): pass              # noqa: E704
+    def add_objects(self, *a, **k): pass             # noqa: E704
+    def set_initial_value(self, *a, **k): pass       # noqa: E704
+    def add_action(self, *a, **k): pass              # noqa: E704
+    def add_goal(self, *a, **k): pass                # noqa: E704
+    def add_quality_metric(self, *a, **k): pass      # noqa: E704
+
+
+class Dummy:
+    """marker class of the record standing for the plain action built for a sensing action"""
+
+    def add_precondition(self, *a, **k): pass        # noqa: E704
+    def _add_effect_instance(self, *a, **k): pass    # noqa: E704
+
+
+def _new_problem(eng, st, args, kw):
+    g = {"_g_fluents": st.alloc(SSet.empty(Fluent35), "set"),                      # fluents added
+         "_g_dkind": st.alloc(SMap(Fluent35, __import__("pyvc.values", fromlist=["Int"]).Int, z3.K(_F, z3.BoolVal(False)), z3.K(_F, z3.IntVal(-1))), "dict"),
+         "_g_dnode": st.alloc(SMap(Fluent35, FN35, z3.K(_F, z3.BoolVal(False)), z3.Array(fresh_name("dnode"), _F, _K)), "dict"),
+         "_g_init": st.alloc(SMap(FN35, FN35, z3.K(_K, z3.BoolVal(False)), z3.Array(fresh_name("init"), _K, _K)), "dict"),
+         "_g_plain": st.alloc(SSet.empty(Action35), "set"),                         # originals whose clone was added
+         "_g_dummies": st.alloc(SSet.empty(Action35), "set"),                       # sensing originals for which a complete dummy was added
+         "_g_goals": st.alloc(SSet.empty(FN35), "set"), "_g_metrics": st.alloc(SSet.empty(Metric35), "set"),
+         "_g_objects": None, "name": args[0] if args else None}
+    yield st, st.alloc(Rec(DetProblem, g), "deterministic_problem")
+
+
+def _store(st, rec, field, fn):
+    loc = st.getfield(rec, field)
+    st.store(loc, fn(st.load(loc)))
+
+
+def _m_add_fluent(eng, st, det, args, kw):
+    fl = args[0]
+    dv = kw.get("default_initial_value", args[1] if len(args) > 1 else None)
+    for s, d in eng.force(st, dv):
+        _store(s, det, "_g_fluents", lambda c: c.add(fl))
+        if d is None:
+            kind = 0
+        elif d is False:
+            kind = 1
+        elif isinstance(d, SRef):
+            kind = 2
+            _store(s, det, "_g_dnode", lambda c: c.store(fl, d))
+        else:
+            raise _Unsupported(f"default value {d!r}")
+        _store(s, det, "_g_dkind", lambda c: c.store(fl, kind))
+        yield s, None
+
+
+def _rec_methods():
+    """methods of the two marker records, dispatched by the engine through class_models-free contracts"""
+    def add_objects(eng, st, args, kw):
+        st.setfield(args[0], "_g_objects", args[1])
+        yield st, None
+
+    def set_initial_value(eng, st, args, kw):
+        _store(st, args[0], "_g_init", lambda c: c.store(args[1], args[2]))
+        yield st, None
+
+    def add_action(eng, st, args, kw):
+        det, a = args[0], args[1]
+        if isinstance(a, Loc):            # a dummy: complete iff it carries the original's name, every precondition and clones of all effects
+            d = st.load(a).fields
+            orig = d["_orig"]
+            pre, eff = st.load(d["_g_pre"]), st.load(d["_g_eff"])
+            ps, es = B.field_uf(eng, st, orig, "preconditions"), B.field_uf(eng, st, orig, "effects")
+            j = z3.Int(fresh_name("j"))
+            complete = z3.And(zbool(B.equal(eng, st, d["name"], B.field_uf(eng, st, orig, "name"))),
+                              z3.ForAll([j], z3.Implies(z3.And(0 <= j, j < ps.n), z3.Select(pre.has, z3.Select(ps.arr, j)))),
+                              z3.ForAll([j], z3.Implies(z3.And(0 <= j, j < es.n), z3.Select(eff.has, _ECLONE(z3.Select(es.arr, j))))))
+            st.oblige("the plain action added for a sensing action has its name, all its preconditions and clones of all its effects", complete)
+            _store(st, det, "_g_dummies", lambda c: c.add(orig))
+        else:
+            x = z3.Const(fresh_name("x"), _A)
+            st.oblige("a non-sensing action is added as a clone of itself", z3.Exists([x], a.z == _ACLONE(x)))
+            cur = st.load(st.getfield(det, "_g_plain"))
+            k = z3.Const(fresh_name("k"), _A)
+            st.store(st.getfield(det, "_g_plain"), SSet(Action35, z3.Lambda([k], z3.Or(z3.Select(cur.has, k), _ACLONE(k) == a.z))))
+        yield st, None
+
+    def add_goal(eng, st, args, kw):
+        _store(st, args[0], "_g_goals", lambda c: c.add(args[1]))
+        yield st, None
+
+    def add_metric(eng, st, args, kw):
+        _store(st, args[0], "_g_metrics", lambda c: c.add(args[1]))
+        yield st, None
+
+    def add_precondition(eng, st, args, kw):
+        _store(st, args[0], "_g_pre", lambda c: c.add(args[1]))
+        yield st, None
+
+    def add_effect_instance(eng, st, args, kw):
+        _store(st, args[0], "_g_eff", lambda c: c.add(args[1]))
+        yield st, None
+    return {"add_objects": add_objects, "set_initial_value": set_initial_value, "add_action": add_action, "add_goal": add_goal,
+            "add_quality_metric": add_metric, "add_precondition": add_precondition, "_add_effect_instance": add_effect_instance}
+
+
+def _in_prefix(seq, i, pred):
+    j = z3.Int(fresh_name("j"))
+    return z3.ForAll([j], z3.Implies(z3.And(0 <= j, j < i), pred(z3.Select(seq.arr, j))))
+
+
+class DeterministicClone(Unit):
+    prop = "C35"
+    name = "SimulatedExecutionEnvironment._get_stateless_deterministic_problem_clone"
+    doc = "every fluent with the declared default, every visible explicit value (no hidden one), every action / goal / metric reaches the plain problem"
+
+    def target(self):
+        return _ee.SimulatedExecutionEnvironment._get_stateless_deterministic_problem_clone
+
+    def configure(self, eng):
+        import unified_planning as up_
+        eng.opaque_dictcomp = True
+        eng.contracts[up_.model.Problem] = _new_problem
+        m = _rec_methods()
+        for nm in ("add_objects", "set_initial_value", "add_action", "add_goal", "add_quality_metric"):
+            eng.contracts[getattr(DetProblem, nm)] = m[nm]
+        for nm in ("add_precondition", "_add_effect_instance"):
+            eng.contracts[getattr(Dummy, nm)] = m[nm]
+        eng.contracts[DetProblem.add_fluent] = lambda e, st, args, kw: _m_add_fluent(e, st, args[0], args[1:], kw)
+
+        def new_dummy(eng_, st, args, kw):
+            orig = st.frame.vars.get("action")
+            yield st, st.alloc(Rec(Dummy, {"name": args[0], "_orig": orig, "_g_pre": st.alloc(SSet.empty(FN35), "set"),
+                                           "_g_eff": st.alloc(SSet.empty(Eff35), "set")}), "dummy")
+        eng.contracts[up_.model.InstantaneousAction] = new_dummy
+        from collections import OrderedDict as _OD
+        eng.contracts[_OD] = lambda e, st, args, kw: iter([(st, args[0] if args else None)])
+
+        def det(L):
+            return L.deterministic_problem
+
+        def g(L, f):
+            return L.st.load(L.st.getfield(det(L), f))
+
+        def grows(L, f):
+            now, pre = g(L, f), L._pre.st.load(L._pre.st.getfield(det(L), f))
+            x = z3.Const(fresh_name("x"), now.tk.z3sort())
+            return z3.ForAll([x], z3.Implies(z3.Select(pre.has, x), z3.Select(now.has, x)))
+        prob = lambda L: L.problem   # noqa: E731
+
+        def inv_fluents(L):
+            p = prob(L)
+            dflt = B.field_uf(L._eng, L.st, p, "fluents_defaults")
+            dk, dn, fl = g(L, "_g_dkind"), g(L, "_g_dnode"), g(L, "_g_fluents")
+            isb = lambda f: B._uf("Type35.is_bool_type()", Type35.z3sort(), z3.BoolSort())(B._uf("Fluent35.type", _F, Type35.z3sort())(f))   # noqa: E731
+
+            def ok(f):
+                return z3.And(z3.Select(fl.has, f), z3.Select(dk.has, f),
+                              z3.If(z3.Select(dflt.has, f), z3.And(z3.Select(dk.val, f) == 2, z3.Select(dn.has, f), z3.Select(dn.val, f) == z3.Select(dflt.val, f)),
+                                    z3.Select(dk.val, f) == z3.If(isb(f), 1, 0)))
+            # a fluent occurs once in problem.fluents (names are unique): later iterations do not overwrite an earlier record
+            return [("every scanned fluent is added with the declared default (per-fluent, else False for Booleans, else none)", _in_prefix(L._seq, zint(L._i), ok))]
+        # NB: distinctness of problem.fluents is assumed in setup
+
+        def inv_init(L):
+            p = prob(L)
+            items = L._seq
+            hid = B.field_uf(L._eng, L.st, p, "hidden_fluents")
+            init = g(L, "_g_init")
+            k = z3.Const(fresh_name("k"), _K)
+            src, idx = items.m, items.idx
+            return [("set initial values == the scanned explicit values of non-hidden fluents",
+                     z3.ForAll([k], z3.And(z3.Select(init.has, k) == z3.And(z3.Select(src.has, k), z3.Select(idx, k) < zint(L._i), z3.Not(z3.Select(hid.has, k))),
+                                           z3.Implies(z3.Select(init.has, k), z3.Select(init.val, k) == z3.Select(src.val, k)))))]
+
+        def inv_actions(L):
+            pl, du = g(L, "_g_plain"), g(L, "_g_dummies")
+            return [("every scanned action reached the plain problem (clone, or complete plain copy of a sensing action)",
+                     _in_prefix(L._seq, zint(L._i), lambda a: z3.If(is_sensing35(a), z3.Select(du.has, a), z3.Select(pl.has, a)))),
+                    ("recorded plain actions stay recorded", grows(L, "_g_plain")), ("recorded dummies stay recorded", grows(L, "_g_dummies"))]
+
+        def inv_dummy(field, fld_src, wrap):
+            def inv(L):
+                d = L.dummy
+                cur = L.st.load(L.st.getfield(d, field))
+                pre = L._pre.st.load(L._pre.st.getfield(d, field))
+                x = z3.Const(fresh_name("x"), cur.tk.z3sort())
+                return [(f"the scanned {fld_src} are in the plain action", _in_prefix(L._seq, zint(L._i), lambda e_: z3.Select(cur.has, wrap(e_)))),
+                        (f"{fld_src} recorded before stay recorded", z3.ForAll([x], z3.Implies(z3.Select(pre.has, x), z3.Select(cur.has, x))))]
+            return inv
+
+        def inv_set(field, what):
+            def inv(L):
+                cur = g(L, field)
+                return [(f"every scanned {what} is copied", _in_prefix(L._seq, zint(L._i), lambda x: z3.Select(cur.has, x))), (f"{what}s stay", grows(L, field))]
+            return inv
+        D = "deterministic_problem."
+        eng.loops[(QNC, 0)] = LoopSpec(inv_fluents, modifies=["fluent", "default_value", D + "_g_fluents", D + "_g_dkind", D + "_g_dnode"],
+                                       types={D + "_g_fluents": Set(Fluent35), D + "_g_dkind": Map(Fluent35, __import__("pyvc.values", fromlist=["Int"]).Int), D + "_g_dnode": Map(Fluent35, FN35)})
+        eng.loops[(QNC, 1)] = LoopSpec(inv_init, modifies=["f", "v", D + "_g_init"], types={D + "_g_init": Map(FN35, FN35)})
+        eng.loops[(QNC, 2)] = LoopSpec(inv_actions, modifies=["action", "params", "dummy", "precond", "effect", D + "_g_plain", D + "_g_dummies"],
+                                       types={D + "_g_plain": Set(Action35), D + "_g_dummies": Set(Action35)})
+        eng.loops[(QNC, 3)] = LoopSpec(inv_dummy("_g_pre", "preconditions", lambda e_: e_), modifies=["precond", "dummy._g_pre"], types={"dummy._g_pre": Set(FN35)})
+        eng.loops[(QNC, 4)] = LoopSpec(inv_dummy("_g_eff", "effects", lambda e_: _ECLONE(e_)), modifies=["effect", "dummy._g_eff"], types={"dummy._g_eff": Set(Eff35)})
+        eng.loops[(QNC, 5)] = LoopSpec(inv_set("_g_goals", "goal"), modifies=["g", D + "_g_goals"], types={D + "_g_goals": Set(FN35)})
+        eng.loops[(QNC, 6)] = LoopSpec(inv_set("_g_metrics", "metric"), modifies=["metric", D + "_g_metrics"], types={D + "_g_metrics": Set(Metric35)})
+
+    def setup(self, eng, st):
+        w = st.alloc(Rec(_ee.SimulatedExecutionEnvironment, {}), "environment")
+        p = CProblem35.fresh("problem")
+        fl = B.field_uf(eng, st, p, "fluents")
+        a, b = z3.Int(fresh_name("a")), z3.Int(fresh_name("b"))
+        st.assume(z3.ForAll([a, b], z3.Implies(z3.And(0 <= a, a < b, b < fl.n), z3.Select(fl.arr, a) != z3.Select(fl.arr, b))))   # fluents are pairwise distinct
+        return [w, p], {}, dict(p=p)
+
+    def post(self, eng, ctx, st, out):
+        if out[0] != "return":
+            return
+        p, det = ctx["p"], out[1]
+        g = lambda f: st.load(st.getfield(det, f))    # noqa: E731
+        fl = B.field_uf(eng, st, p, "fluents")
+        dflt = B.field_uf(eng, st, p, "fluents_defaults")
+        dk, dn, flset = g("_g_dkind"), g("_g_dnode"), g("_g_fluents")
+        isb = lambda f: B._uf("Type35.is_bool_type()", Type35.z3sort(), z3.BoolSort())(B._uf("Fluent35.type", _F, Type35.z3sort())(f))   # noqa: E731
+        j = z3.Int(fresh_name("j"))
+        f = z3.Select(fl.arr, j)
+        st.oblige("every fluent is added with the declared default (per-fluent / per-type), else False for a Boolean fluent, else no default",
+                  z3.ForAll([j], z3.Implies(z3.And(0 <= j, j < fl.n), z3.And(
+                      z3.Select(flset.has, f), z3.If(z3.Select(dflt.has, f), z3.And(z3.Select(dk.val, f) == 2, z3.Select(dn.val, f) == z3.Select(dflt.val, f)),
+                                                     z3.Select(dk.val, f) == z3.If(isb(f), 1, 0))))))
+        ex = B.field_uf(eng, st, p, "explicit_initial_values")
+        hid = B.field_uf(eng, st, p, "hidden_fluents")
+        init = g("_g_init")
+        k = z3.Const(fresh_name("k"), _K)
+        st.oblige("exactly the explicit initial values of non-hidden fluents are set, with their values",
+                  z3.ForAll([k], z3.And(z3.Select(init.has, k) == z3.And(z3.Select(ex.has, k), z3.Not(z3.Select(hid.has, k))),
+                                        z3.Implies(z3.Select(init.has, k), z3.Select(init.val, k) == z3.Select(ex.val, k)))))
+        acts = B.field_uf(eng, st, p, "actions")
+        pl, du = g("_g_plain"), g("_g_dummies")
+        a = z3.Select(acts.arr, j)
+        st.oblige("every action reaches the plain problem: a clone, or for a sensing action a plain action with its name, preconditions and effect clones",
+                  z3.ForAll([j], z3.Implies(z3.And(0 <= j, j < acts.n), z3.If(is_sensing35(a), z3.Select(du.has, a), z3.Select(pl.has, a)))))
+        goals, ms = B.field_uf(eng, st, p, "goals"), B.field_uf(eng, st, p, "quality_metrics")
+        st.oblige("every goal is copied", z3.ForAll([j], z3.Implies(z3.And(0 <= j, j < goals.n), z3.Select(g("_g_goals").has, z3.Select(goals.arr, j)))))
+        st.oblige("every quality metric is copied", z3.ForAll([j], z3.Implies(z3.And(0 <= j, j < ms.n), z3.Select(g("_g_metrics").has, z3.Select(ms.arr, j)))))
+        objs = st.getfield(det, "_g_objects")
+        st.oblige("all objects are added", z3.BoolVal(isinstance(objs, SSeq) and z3.eq(objs.arr, B.field_uf(eng, st, p, "all_objects").arr)))
+
+
+UNITS = [DeterministicClone()]
+LEVEL = "other"
 EXPLANATION = __doc__
 TRUSTED = ["bounded stand-in only (the environment builds a problem, calls pysmt and the simulator: no function-level contract decides the property)",
            "reference for action execution is the real UPSequentialSimulator (bounded-checked in C01/C02) on an independently built problem",
